@@ -35,18 +35,26 @@ class SuggestModel:
             raise AnalysisError('make_suggestion: loop over self.expected_tokens not found')
         self.loop = loop
         self.tokvar = loop.target.id
-        # value = getattr(self.lexer, token_name, None)
-        self.valvar = None
-        for st in loop.body:
-            if isinstance(st, ast.Assign) and isinstance(st.value, ast.Call) and dotted(st.value.func) == 'getattr' \
-                    and norm(st.value.args[0]) == 'self.lexer' and norm(st.value.args[1]) == self.tokvar:
-                self.valvar = st.targets[0].id
-        if self.valvar is None:
-            raise AnalysisError('make_suggestion: `value = getattr(self.lexer, token_name, None)` not found')
-        chain = [st for st in loop.body if isinstance(st, ast.If)]
-        if len(chain) != 1:
-            raise AnalysisError('make_suggestion: expected one if/elif chain in the loop over expected tokens')
-        self.chain = chain[0]
+        # the first part of the function - everything up to and including that loop - is interpreted (sa/interp.py): it computes the
+        # display -> token dictionary from the expected token types and the lexer's attributes
+        top = loop
+        while getattr(top, '_parent', None) is not None and top._parent is not self.fn:
+            top = top._parent
+        if top not in self.fn.body:
+            raise AnalysisError('make_suggestion: the loop over self.expected_tokens is not a statement of the function body')
+        idx = self.fn.body.index(top)
+        stored = {n.value.id for n in ast.walk(loop) if isinstance(n, ast.Subscript) and isinstance(n.ctx, ast.Store) and isinstance(n.value, ast.Name)}
+        stored |= {t.id for n in ast.walk(loop) if isinstance(n, ast.Assign) and isinstance(n.value, ast.Dict) for t in n.targets if isinstance(t, ast.Name)}
+        before = {t.id for st in self.fn.body[:idx] for n in ast.walk(st) if isinstance(n, ast.Assign) for t in n.targets if isinstance(t, ast.Name)}
+        cands = sorted(stored & before)
+        if len(cands) != 1:
+            raise AnalysisError(f'make_suggestion: the dictionary filled by the loop over the expected tokens is not identifiable ({cands})')
+        self.dictvar = cands[0]
+        ret = ast.Return(value=ast.Name(id=self.dictvar, ctx=ast.Load()))
+        self.head = ast.FunctionDef(name='make_suggestion_head', args=self.fn.args, body=list(self.fn.body[:idx + 1]) + [ret], decorator_list=[],
+                                    lineno=self.fn.lineno, col_offset=0)
+        ast.fix_missing_locations(self.head)
+        self.src = src
         # thresholds: `len(expected) == 1` and `1 < len(expected) < 20`
         self.hi = None
         for n in ast.walk(self.fn):
@@ -55,6 +63,36 @@ class SuggestModel:
                 self.lo, self.hi = n.left.value, n.comparators[1].value
         if self.hi is None:
             raise AnalysisError('make_suggestion: the `1 < len(expected) < N` test was not found')
+
+    PROBE = ('ZZZPROBE', 'zzzprobe')
+
+    def _head(self, token_types, attrs):
+        """the display dictionary the first part of make_suggestion builds for these expected token types (in this order)"""
+        from .interp import Interp, Obj, Raised, Env
+        it = Interp.for_file(self.src, FILE, {}, {})
+        lexer = Obj('Lexer', **{k: v for k, v in attrs.items() if v is not None})
+        self_ = Obj('ErrorHandling', expected_tokens=list(token_types), lexer=lexer, tokens=[], bad_token=None, parser=Obj('Parser'))
+        try:
+            d = it.call_function(self.head, [self_], {}, Env())
+        except Raised as r:
+            raise AnalysisError(f'make_suggestion raises {r.exc_name} while collecting the expected tokens {list(token_types)[:4]}')
+        if not isinstance(d, dict):
+            raise AnalysisError('make_suggestion: the collected expected tokens are not a dictionary')
+        return d
+
+    def _with_probe(self, token_types, attrs):
+        """-> (the loop was left early?, {display: token})"""
+        key = 'probe-ok'
+        if key not in self._memo:
+            self._memo[key] = self._head([self.PROBE[0]], {self.PROBE[0]: self.PROBE[1]}) == {self.PROBE[1]: self.PROBE[0]}
+        if not self._memo[key]:
+            raise AnalysisError('make_suggestion: a plain keyword token is not shown by its own text (the probe of the model does not work)')
+        a = dict(attrs)
+        a[self.PROBE[0]] = self.PROBE[1]
+        d = dict(self._head(list(token_types) + [self.PROBE[0]], a))
+        left_early = self.PROBE[1] not in d
+        d.pop(self.PROBE[1], None)
+        return left_early, d
 
     def classify(self, token_name, pattern):
         key = (token_name, pattern if isinstance(pattern, (str, type(None))) else '<callable>')
@@ -65,82 +103,27 @@ class SuggestModel:
     def _classify(self, token_name, pattern):
         """-> ('break', display) | ('add', display) | ('skip', None): what one iteration of the loop does for a token
         type whose lexer attribute is `pattern` (a str for string rules, None/callable marker otherwise)."""
-        env = {self.tokvar: token_name, self.valvar: pattern,
-               'isinstance': lambda v, t: (t == 'str' and isinstance(v, str)), 'str': 'str'}
-        node = self.chain
-        while True:
-            try:
-                ok = peval.ev(node.test, env)
-            except AnalysisError as e:
-                raise AnalysisError(f'make_suggestion: branch test `{norm(node.test)}` is not modelled ({e})')
-            if ok:
-                return self._run(node.body, env)
-            if len(node.orelse) == 1 and isinstance(node.orelse[0], ast.If):
-                node = node.orelse[0]
-                continue
-            if node.orelse:
-                return self._run(node.orelse, env)
-            return ('skip', None)
-
-    def _run(self, body, env):
-        env = dict(env)
-        for st in body:
-            if isinstance(st, ast.Expr) and isinstance(st.value, ast.Constant):
-                continue
-            if isinstance(st, ast.Assign) and len(st.targets) == 1:
-                t = st.targets[0]
-                if isinstance(t, ast.Name):
-                    if t.id == 'expected':      # expected = {'[identifier]': token_name}
-                        if isinstance(st.value, ast.Dict) and len(st.value.keys) == 1:
-                            k = peval.ev(st.value.keys[0], env)
-                            env['_set'] = k
-                            continue
-                        raise AnalysisError(f'make_suggestion: unmodelled `{norm(st)}`')
-                    env[t.id] = self._ev_str(st.value, env)
-                    continue
-                if isinstance(t, ast.Subscript) and norm(t.value) == 'expected':
-                    return ('add', peval.ev(t.slice, env))
-            if isinstance(st, ast.Break):
-                if '_set' in env:
-                    return ('break', env['_set'])
-                return ('skip', None)
-            if isinstance(st, ast.If):
-                if peval.ev(st.test, env):
-                    r = self._run(st.body, env)
-                else:
-                    r = self._run(st.orelse, env)
-                if r[0] != 'skip':
-                    return r
-                continue
-            raise AnalysisError(f'make_suggestion: unmodelled statement `{norm(st)}` in the token loop')
-        if '_set' in env:
-            return ('set', env['_set'])
-        return ('skip', None)
-
-    def _ev_str(self, e, env):
-        if isinstance(e, ast.Call) and isinstance(e.func, ast.Attribute) and e.func.attr == 'replace' and len(e.args) == 2:
-            base = self._ev_str(e.func.value, env)
-            a, b = peval.ev(e.args[0], env), peval.ev(e.args[1], env)
-            return base.replace(a, b)
-        return peval.ev(e, env)
+        from .interp import Obj
+        left_early, d = self._with_probe([token_name], {token_name: pattern if isinstance(pattern, (str, type(None))) else Obj('function')})
+        if len(d) > 1:
+            raise AnalysisError(f'make_suggestion: one expected token {token_name} gives several display strings {sorted(d)}')
+        if left_early:
+            return ('break', next(iter(d))) if d else ('skip', None)
+        return ('add', next(iter(d))) if d else ('skip', None)
 
     def display_set(self, lexer, token_types):
-        """The `expected` dict of make_suggestion for a list of expected token types (order-insensitive part):
+        """The `expected` dict of make_suggestion for a list of expected token types:
         returns (mode, {display: token}) with mode 'identifier-only' when the ID special case breaks the loop."""
-        expected = {}
+        from .interp import Obj
+        attrs = {}
         for t in token_types:
             r = lexer.rule(t)
-            pat = None
             if r is not None and r.func is None:
-                pat = r.pattern
+                attrs[t] = r.pattern
             elif r is not None:
-                pat = _Callable()
-            kind, disp = self.classify(t, pat)
-            if kind == 'break':
-                return 'identifier-only', {disp: t}
-            if kind in ('add', 'set'):
-                expected[disp] = t
-        return 'normal', expected
+                attrs[t] = Obj('function')
+        left_early, d = self._with_probe(list(token_types), attrs)
+        return ('identifier-only' if left_early else 'normal'), d
 
 
 class _Callable:
